@@ -7,7 +7,9 @@ MIN64 = -2 ** 63
 DAY = 86400000
 
 LONGS = [0, 1, -1, 2, 7, 10, 100, 1000, 86400000, -86400000, MAX64, MIN64, MAX64 - 1, MIN64 + 1,
-         2 ** 31, 2 ** 32, 3037000500, -3037000500, 4294967296, -4294967296, 2 ** 62, -2 ** 62, 9999, 10000]
+         2 ** 31, 2 ** 32, 3037000500, -3037000500, 4294967296, -4294967296, 2 ** 62, -2 ** 62, 9999, 10000,
+         # beyond the integers a float64 holds exactly (a decoder that goes through float64 rounds these), far from the int64 ends
+         2 ** 53, 2 ** 53 + 1, -(2 ** 53) - 1, 2 ** 53 - 1, 2 ** 60 + 1, 1234567890123456789, -1234567890123456789, MAX64 - 1000, MIN64 + 1001, 10 ** 18 + 1]
 STRINGS = ['', 'a', 'ab', 'abc', 'alice', 'a*b', '*', 'é', 'aéb', 'éé', 'hello world', 'k', 'x.y', 'aaa', 'aab', 'abab',
            '日本', '\x00', 'A', 'b']
 ETYPES = ['User', 'Group', 'Doc', 'Action', 'NS::T']
